@@ -83,6 +83,7 @@ type c14Sched struct {
 	Ops       []c14Op  `json:"ops"`
 	Reps      int      `json:"reps"`
 	Jitter    uint64   `json:"jitter"`
+	Hold      bool     `json:"hold,omitempty"` // every diagnostics task waits at its start for a "run" op (family "order")
 }
 
 // ------------------------------------------------------------------ generator
@@ -396,6 +397,66 @@ func c14GenWindow(c *Ctx, ws, diagOff bool) c14Sched {
 	return s
 }
 
+// c14GenOrder: the family "order" (mode "resp" with held tasks).  One document with an include,
+// answered from its own tree, goes through a short history — changes, or close and re-open with
+// another text — while every diagnostics task waits at its start; then the tasks run to their
+// ends ONE AFTER THE OTHER in the order `perm` (a permutation of the spawn order), requests in
+// between and after.  A task of superseded content that runs after the task of the current
+// content must change nothing: not the stored include tree, not the diagnostics on screen.
+// Every response is compared with the sequential replay.  (Added after seeds r5-C14 / r5-C08,
+// which the timing-based streams caught only on some seeds.)
+func c14GenOrder(c *Ctx, ws bool, reopen bool, perm []int) c14Sched {
+	r := c.R
+	s := c14Sched{Mode: "resp", Workspace: ws, Jitter: r.Uint64(), Reps: 1, Hold: true}
+	s.Files = []c14Doc{{Name: c14IncName, Text: c14IncText}}
+	s.Docs = []c14Doc{{Name: "main.journal", Text: c14Journal(r, nil)}}
+	text, pos := c14WindowText(r, true)
+	s.Docs = append(s.Docs, c14Doc{Name: "x.journal", Text: text})
+	ask := func(n int) {
+		ks := append([]string{}, c14WindowKinds...)
+		r.Shuffle(len(ks), func(i, j int) { ks[i], ks[j] = ks[j], ks[i] })
+		for _, k := range ks[:n] {
+			if p, ok := pos[k]; ok {
+				s.Ops = append(s.Ops, c14Op{K: k, D: 1, L: p[0], C: p[1]})
+			}
+		}
+	}
+	s.Ops = append(s.Ops, c14Op{K: "open", D: 1, T: text})
+	for i := 1; i < len(perm); i++ {
+		if reopen && (i == len(perm)-1 || r.IntN(2) == 0) {
+			s.Ops = append(s.Ops, c14Op{K: "close", D: 1})
+			text, pos = c14WindowText(r, r.IntN(4) != 0)
+			s.Ops = append(s.Ops, c14Op{K: "open", D: 1, T: text})
+		} else {
+			text, pos = c14WindowText(r, r.IntN(4) != 0)
+			s.Ops = append(s.Ops, c14Op{K: "change", D: 1, T: text})
+		}
+	}
+	ask(1 + r.IntN(2)) // while every task is still waiting
+	for _, k := range perm {
+		s.Ops = append(s.Ops, c14Op{K: "run", N: k})
+		ask(1 + r.IntN(3))
+	}
+	ask(4)
+	c.Count(fmt.Sprintf("order.sched.tasks=%d.reopen=%v.ws=%v", len(perm), reopen, ws))
+	return s
+}
+
+// c14Perms: all permutations of 0..n-1.
+func c14Perms(n int) [][]int {
+	if n == 0 {
+		return [][]int{{}}
+	}
+	var out [][]int
+	for _, p := range c14Perms(n - 1) {
+		for i := 0; i <= len(p); i++ {
+			q := append(append(append([]int{}, p[:i]...), n-1), p[i:]...)
+			out = append(out, q)
+		}
+	}
+	return out
+}
+
 // c14GenInc: the "shared included file" family (mode "inc").  Two documents include the same
 // file; that file has k lines that do not parse (k parse errors in the loader's cache entry)
 // and, below them, an include that fails at include level — a missing file, a cycle back to one
@@ -677,6 +738,20 @@ func genC14(c *Ctx) {
 			}
 		}
 	}
+	// held tasks, every order of running them: bursts of 2 and 3 (thorough: 4) x {changes, close and
+	// re-open} x {no workspace, workspace}
+	maxTasks := c.N(3, 4)
+	for n := 2; n <= maxTasks; n++ {
+		for _, perm := range c14Perms(n) {
+			for _, reopen := range []bool{false, true} {
+				ws := c.R.IntN(2) == 0
+				scheds = append(scheds, c14GenOrder(c, ws, reopen, perm))
+				if c.Thorough() {
+					scheds = append(scheds, c14GenOrder(c, !ws, reopen, perm))
+				}
+			}
+		}
+	}
 	// shared included file with k = 0..9 parse errors x the three include-level errors
 	for rep := 0; rep < c.N(1, 4); rep++ {
 		for k := 0; k <= 9; k++ {
@@ -750,6 +825,7 @@ func c14Child(c *Ctx) {
 	defer f.Close()
 	from, _ := strconv.Atoi(os.Getenv("HX_C14_FROM"))
 	server.VerifYieldHook = c14YieldHook
+	server.VerifStartHook = c14StartHook
 	go c14Watchdog()
 	sc := bufio.NewScanner(f)
 	sc.Buffer(make([]byte, 1<<20), 1<<28)
@@ -779,6 +855,78 @@ type c14Client struct {
 	published       map[protocol.DocumentURI]int
 	lastDiag        map[protocol.DocumentURI][]string // include-level messages of the last publish per document
 	jit             *rand.Rand
+	hold            bool          // family "order": tasks wait at their start
+	tasks           []*c14Task    // in the order they reached the start hook (= spawn order, see awaitTask)
+	arrive          chan struct{} // one token per task that reached the start hook
+}
+
+// c14Task is a diagnostics task held at its start (server.VerifStartHook).
+type c14Task struct {
+	gate     chan struct{} // closed by the harness: run
+	done     chan struct{} // closed when the task has returned
+	released bool
+}
+
+// c14StartHook is installed as server.VerifStartHook in the child.  In the family "order" every
+// diagnostics task stops here, before it has read or written anything, until the stream says
+// "run k"; so the ORDER in which the tasks of a burst (or of two sessions of a document) load,
+// store and publish is chosen by the schedule and not by the Go scheduler.
+func c14StartHook(ctx context.Context, uri protocol.DocumentURI, version uint64) func() {
+	cl, _ := ctx.Value(c14ClientKey{}).(*c14Client)
+	if cl == nil || !cl.hold {
+		return nil
+	}
+	t := &c14Task{gate: make(chan struct{}), done: make(chan struct{})}
+	cl.mu.Lock()
+	cl.tasks = append(cl.tasks, t)
+	cl.mu.Unlock()
+	cl.arrive <- struct{}{}
+	<-t.gate
+	return func() { close(t.done) }
+}
+
+// awaitTask waits until the task spawned by the notification just sent has reached the start
+// hook (so arrival order is spawn order); a notification that spawns none is not waited for long.
+func (cl *c14Client) awaitTask() {
+	if !cl.hold {
+		return
+	}
+	select {
+	case <-cl.arrive:
+	case <-time.After(2 * time.Second):
+	}
+}
+
+// runTask lets the k-th task run to its end (no-op if there is no such task or it ran already).
+func (cl *c14Client) runTask(k int) {
+	cl.mu.Lock()
+	var t *c14Task
+	if k >= 0 && k < len(cl.tasks) && !cl.tasks[k].released {
+		t = cl.tasks[k]
+		t.released = true
+	}
+	cl.mu.Unlock()
+	if t == nil {
+		return
+	}
+	close(t.gate)
+	select {
+	case <-t.done:
+	case <-time.After(20 * time.Second):
+		c14Die("a diagnostics task released by the schedule did not finish within 20 s")
+	}
+}
+
+func (cl *c14Client) runAllTasks() {
+	for k := 0; ; k++ {
+		cl.mu.Lock()
+		n := len(cl.tasks)
+		cl.mu.Unlock()
+		if k >= n {
+			return
+		}
+		cl.runTask(k)
+	}
 }
 
 // diagOf: under the client's mutex (the harness waits for the background goroutines by polling,
@@ -1083,6 +1231,10 @@ func c14RunOnce(s *c14Sched, dir string, sequential bool, jitter uint64) (run *c
 	if !sequential {
 		cl.jit = rand.New(rand.NewPCG(jitter, 14))
 		cl.gated = s.Mode == "race"
+		if s.Hold {
+			cl.hold = true
+			cl.arrive = make(chan struct{}, 1024)
+		}
 	}
 	run = &c14Run{cl: cl, lastID: map[int]string{}, started: map[protocol.DocumentURI]int{}, overlap: map[protocol.DocumentURI]bool{}, opened: map[int]bool{}}
 	for _, d := range s.Docs {
@@ -1125,6 +1277,7 @@ func c14RunOnce(s *c14Sched, dir string, sequential bool, jitter uint64) (run *c
 			run.noteTask(run.uris[op.D])
 			run.opened[op.D] = true
 			srv.DidOpen(ctx, &protocol.DidOpenTextDocumentParams{TextDocument: protocol.TextDocumentItem{URI: run.uris[op.D], Text: op.T, Version: 1}})
+			cl.awaitTask()
 			settle()
 		case "change":
 			ch := protocol.TextDocumentContentChangeEvent{Text: op.T}
@@ -1137,6 +1290,9 @@ func c14RunOnce(s *c14Sched, dir string, sequential bool, jitter uint64) (run *c
 			srv.DidChange(ctx, &protocol.DidChangeTextDocumentParams{
 				TextDocument:   protocol.VersionedTextDocumentIdentifier{TextDocumentIdentifier: protocol.TextDocumentIdentifier{URI: run.uris[op.D]}, Version: int32(i + 2)},
 				ContentChanges: []protocol.TextDocumentContentChangeEvent{ch}})
+			if run.opened[op.D] {
+				cl.awaitTask()
+			}
 			settle()
 		case "save":
 			srv.DidSave(ctx, &protocol.DidSaveTextDocumentParams{TextDocument: protocol.TextDocumentIdentifier{URI: run.uris[op.D]}})
@@ -1159,6 +1315,12 @@ func c14RunOnce(s *c14Sched, dir string, sequential bool, jitter uint64) (run *c
 				c14Wait("refresh")
 			}
 			settle()
+		case "run":
+			// family "order": the N-th task spawned so far runs to its end now (the sequential
+			// reference has awaited every task already)
+			if cl.hold {
+				cl.runTask(op.N)
+			}
 		case "release":
 			if cl.gated && pendingCfg > 0 {
 				pendingCfg--
@@ -1180,6 +1342,9 @@ func c14RunOnce(s *c14Sched, dir string, sequential bool, jitter uint64) (run *c
 		cl.gate <- struct{}{}
 	}
 	c14Progress.Add(1)
+	if cl.hold {
+		cl.runAllTasks()
+	}
 	c14Wait("all")
 	// after quiescence: one more round of requests on every open document
 	for d := range s.Docs {
